@@ -30,6 +30,9 @@ def factory(prop):
     if prop == "C20":
         from engines.func_lru import LruCheck
         return LruCheck()
+    if prop == "C16":
+        from engines.bytes_buffered import BufferedCheck
+        return BufferedCheck()
     raise SystemExit(f"unknown property {prop}")
 
 
